@@ -544,6 +544,15 @@ class History:
             return
         sm = SnapModel(r.value['name'], r.value['location'], u, files, op['at'], op.get('note'))
         sm.ts = r.value['data']['utc_timestamp']
+        if self.W.env.fixed_utcnow is not None:
+            # the recorded time-stamp is the (simulated) UTC time of the command, whatever the process's time zone
+            try:
+                rec = _dt.datetime.fromisoformat(sm.ts)
+            except (TypeError, ValueError):
+                rec = None
+            if rec is None or rec.replace(tzinfo=None) != self.W.env.fixed_utcnow:
+                self.flag('timestamp-not-utc', f'snapshot by u{u} taken at {self.W.env.fixed_utcnow.isoformat()} UTC records utc_timestamp {sm.ts!r}', op='snapshot')
+                return
         self.snaps.append(sm)
         self.last_snapshot_backend = r.backend
 
